@@ -85,7 +85,7 @@ struct MessageTR {
             (void) m.AddBool("b", k == 0); (void) m.AddInt8("i8", (int8)k); (void) m.AddInt16("i16", (int16)k); (void) m.AddInt64("i64", k); (void) m.AddFloat("f", 1.5f * k); (void) m.AddDouble("d", 2.5 * k);
             (void) m.AddPoint("pt", Point(1, (float)k)); (void) m.AddRect("rc", Rect(0, 0, 1, (float)k)); (void) m.AddPointer("ptr", &g_sampleFlat[k]); (void) m.AddTag("tag", RefCountableRef(HeapMsg(9, k).GetRefCountableRef()));
             const uint8 raw[3] = { 1, 2, (uint8)k }; (void) m.AddData("raw", B_RAW_TYPE, raw, sizeof(raw));
-            (void) m.AddFlat("bb", GetByteBufferFromPool(4, raw - 0));
+            (void) m.AddFlat("bb", GetByteBufferFromPool(3, raw));
          }
          break; }
       case 5: { const String * n = m.GetFirstFieldNameString(); if (n) { String c = *n; (void) m.RemoveName(c); } break; }
